@@ -156,6 +156,51 @@ func c02Stream(o *out, r *rng, thorough bool) {
 	}
 }
 
+// c02VisoStream: the same read rule through a generated image served over the connection.
+func c02VisoStream(o *out, r *rng, thorough bool) {
+	n := 6
+	if thorough {
+		n = 60
+	}
+	for ti := 0; ti < n; ti++ {
+		t, dir := genVisoTree(r, false)
+		if dir == "/" {
+			continue
+		}
+		var reqs []creq
+		withTempRoot(func(root string) {
+			if err := t.materialize(root); err != nil {
+				return
+			}
+			bounds, total := visoBounds(root, dir, false)
+			if total == 0 {
+				return
+			}
+			reqs = []creq{{op: opOpenFile, path: "/***DVD***" + dir}}
+			for k := 0; k < 10; k++ {
+				off := bounds[r.intn(len(bounds))] + int64(r.pick(-2049, -2048, -1000, -1, 0, 1, 1000, 2047, 2048))
+				if off < 0 {
+					off = 0
+				}
+				lim := int64(r.pick(0, 1, 100, 2047, 2048, 2049, 3000, 65536, 70000))
+				op := uint16(opReadFile)
+				if r.chance(40) && off+lim <= total {
+					op = opReadFileCritical
+				}
+				reqs = append(reqs, creq{op: op, a: uint64(lim), b: uint64(off)})
+			}
+			reqs = append(reqs, creq{op: opReadFileCritical, a: 4096, b: uint64(total - 100)}) // crosses the end: prefix, then close
+		})
+		if len(reqs) == 0 {
+			continue
+		}
+		for _, q := range reqs {
+			o.count("viso-op:" + opName(q.op))
+		}
+		runWithOracle(o, t, false, reqs, fmt.Sprintf("viso%d", ti), nil)
+	}
+}
+
 // ---------- C06: listing, stat, dir-size ----------
 
 type realInfo struct {
@@ -582,7 +627,7 @@ func c05Stream(o *out, r *rng, thorough bool) {
 }
 
 func init() {
-	streams["c02"] = c02Stream
+	streams["c02"] = func(o *out, r *rng, thorough bool) { c02Stream(o, r, thorough); c02VisoStream(o, r, thorough) }
 	streams["c06"] = c06Stream
 	streams["c17"] = c17Stream
 	streams["c05"] = c05Stream
